@@ -58,6 +58,7 @@ import math
 import numpy as np
 
 PROPERTY = 'C15'
+GUARD = ['numqi.group._lie', 'numqi.matrix_space._clebsch_gordan']  # argument-immutability oracle (mc.seams.ImmutabilityGuard)
 LEVEL = 'model_checking'
 RULE = ('mode P + H over conversions: case = one beta of the beta alphabet (all (alpha,gamma) grid points inside), one first element of '
         'the rotation alphabet (all second elements and all j2 inside), one (function, batch arrangement) (all tuples over the batch '
